@@ -90,6 +90,10 @@ class Recorder:
         if why:
             self.notes["skipped:" + why] += 1
 
+    def harness_problem(self, what, detail=None):
+        """the harness could not trust its own oracle (self-test disagreement): makes the run INCONCLUSIVE, never a violation"""
+        self.extra.setdefault("harness_problems", []).append({"what": what, "detail": jsonable(detail), "case": jsonable(self.case)})
+
     def check(self, monitor, cond, detail=None, mechanism=None):
         """cond True -> ok, False -> fail(detail).  `detail` may be a callable (evaluated only on failure)."""
         if cond:
